@@ -76,6 +76,17 @@ def _frame(case):
             variants.append(("y, X, weights " + nm1, ly[nm1], lx.get(nm2), lw.get(nm1)))
     if X_c is not None:
         variants.append(("X transposed window", y_c, lx["transposed window"], w_c))
+    # pandas containers with index labels that are not the positions (framing is positional: row t is the t-th observation)
+    if n >= 2 and (n + past + delay2) % 3 == 0:
+        import pandas
+        perm = [(5 * i + 3) % n for i in range(n)] if n % 5 else [(3 * i + 1) % n for i in range(n)]
+        if sorted(perm) != list(range(n)):
+            perm = list(range(n))[::-1]
+        for iname, idx in (("permuted integers", perm), ("strings", ["r%d" % i for i in range(n)]), ("shifted integers", list(range(-2, n - 2)))):
+            ys = pandas.Series(y_c.copy(), index=idx)
+            variants.append(("pandas y, index of " + iname, ys, X_c, w_c))
+            variants.append(("pandas y, X, weights, index of " + iname, ys, None if X_c is None else pandas.DataFrame(X_c.copy(), index=idx),
+                             None if w_c is None else pandas.Series(w_c.copy(), index=idx)))
     sample = None
     for lay, y, X, w in variants:
         r = _frame_one(case, lay, y, X, w, bad, numpy, BaseTimeSeries, build_ts_X_y)
@@ -92,17 +103,20 @@ def _frame_one(case, lay, y, X, w, bad0, numpy, BaseTimeSeries, build_ts_X_y):
     def bad(kind, msg):
         bad0(kind if lay == "C" else kind + "|layout: " + lay, msg + ("" if lay == "C" else " [layout: %s]" % lay))
 
-    y0, X0, w0 = y.copy(), None if X is None else X.copy(), None if w is None else w.copy()
+    y0, X0, w0 = numpy.array(y, copy=True), None if X is None else numpy.array(X, copy=True), None if w is None else numpy.array(w, copy=True)
     model = BaseTimeSeries(past=past, delay1=1, delay2=delay2, use_all_past=False)
     nrow = n - delay2 - past + 2
     try:
         nx, ny, nw = build_ts_X_y(model, X, y, w, same_rows=same)
+        nx, ny = numpy.asarray(nx, dtype=float), numpy.asarray(ny, dtype=float)
+        nw = None if nw is None else numpy.asarray(nw, dtype=float)
     except Exception as e:
         bad("raises", "%s: %s on %r" % (type(e).__name__, e, case))
         return None
-    if not (numpy.array_equal(y, y0) and (X is None or numpy.array_equal(X, X0))
-            and (w is None or numpy.array_equal(w, w0))):
+    if not (numpy.array_equal(numpy.asarray(y), y0) and (X is None or numpy.array_equal(numpy.asarray(X), X0))
+            and (w is None or numpy.array_equal(numpy.asarray(w), w0))):
         bad("input modified", repr(case))
+    w = None if w is None else w0
     exp_rows = n if same else nrow
     if nx.shape != (exp_rows, ncol + past) or ny.shape != (exp_rows, delay2 - 1):
         bad("shape", "X %r y %r expected rows %d, cols %d/%d" % (nx.shape, ny.shape, exp_rows,
